@@ -25,6 +25,8 @@ type vhDocUpdLog struct {
 	persistCalls int
 	storeOld     int
 	recalcCalls  int
+	attCalls     int
+	attFail      bool
 }
 
 var vhDU vhDocUpdLog
@@ -68,6 +70,14 @@ func vhDURecalc(db *DatabaseCollectionWithUser, ctx context.Context, doc *Docume
 	vhDU.recalcCalls++
 	// the revived revision's own outputs: distinguishable from the new revision's
 	return base.Set{"R": struct{}{}}, channels.AccessMap{"alice": base.Set{"revived": struct{}{}}}, nil, nil, "", nil
+}
+
+func vhDUAddAttachments(db *DatabaseCollectionWithUser, ctx context.Context, newAttachments updatedAttachments) error {
+	vhDU.attCalls++
+	if vhDU.attFail {
+		return base.HTTPErrorf(500, "verif: attachment store failed")
+	}
+	return nil
 }
 
 var vhDUChans = [2]string{"A", "B"}
@@ -120,12 +130,18 @@ func VHarness_DocUpdate_Plumbing() {
 		doc.SetRevTreeID("2-z")
 		newRevID = "2-a"
 	}
+	// the write may upload new attachment data, and storing it may fail
+	var uploads updatedAttachments
+	if vNondetBool() {
+		uploads = updatedAttachments{"sha1-x": updatedAttachment{body: []byte("x"), created: true, name: "att"}}
+		vhDU.attFail = vNondetBool()
+	}
 	callback := func(d *Document) (*Document, updatedAttachments, bool, *uint32, error) {
 		err := d.History.addRevision(ctx, d.ID, RevInfo{ID: newRevID, Parent: "1-a"})
 		if err != nil {
 			return nil, nil, false, nil, err
 		}
-		return &Document{ID: d.ID, RevID: newRevID}, nil, false, nil, nil
+		return &Document{ID: d.ID, RevID: newRevID}, uploads, false, nil, nil
 	}
 	_, gotRev, _, _, _, changedAccess, changedRoles, _, err := col.documentUpdateFunc(ctx, true, doc, true, 0, nil, callback, nil, ExistingVersion)
 
@@ -133,7 +149,19 @@ func VHarness_DocUpdate_Plumbing() {
 		vCover("rejected")
 		vAssert(err != nil, "a write rejected by the sync function fails")
 		vAssert(vhDU.backupCalls == 0 && vhDU.assignCalls == 0 && vhDU.persistCalls == 0, "a rejected write performs no side effect and reserves no sequence")
+		vAssert(vhDU.attCalls == 0, "a write rejected by the sync function stores no attachment data")
 		return
+	}
+	if vhDU.attFail {
+		vCover("attachment-store-failed")
+		vAssert(err != nil, "a write whose attachment data could not be stored fails")
+		vAssert(vhDU.assignCalls == 0 && vhDU.persistCalls == 0, "a write whose attachment data could not be stored reserves no sequence and persists nothing")
+		return
+	}
+	if uploads != nil {
+		vAssert(vhDU.attCalls == 1, "uploaded attachment data is stored once for an accepted write")
+	} else {
+		vAssert(vhDU.attCalls == 0, "nothing is stored when the write uploads no attachment data")
 	}
 	vAssert(err == nil && gotRev == newRevID, "an accepted write succeeds")
 	vAssert(vhDU.assignCalls == 1, "exactly one sequence is assigned per accepted write")
